@@ -379,6 +379,9 @@ class World:
     def enumerate_next(self, m, st, itref):
         self._no("Enumerate::next")
 
+    def char_indices_next(self, m, st, itref):
+        self._no("CharIndices::next")
+
     def iter_nth(self, m, st, itref, n):
         self._no("Iterator::nth")
 
@@ -1031,8 +1034,8 @@ class Machine:
             body = self.prog.body(fval.defpath)
             if body is None:
                 raise AnalysisError("closure body %s not exported" % fval.defpath)
-            # closure bodies take (&self | self, args...)
-            selfarg = Ref(("val", fval))
+            # closure bodies take (&self | &mut self | self, args...) depending on the closure kind
+            selfarg = Ref(("val", fval)) if body.locals[1]["ty"].startswith("&") else fval
             return (INLINE, body, [selfarg] + list(args))
         if isinstance(fval, Fn):
             info = self.fninfo[fval.full]
